@@ -788,7 +788,11 @@ fn run_c08_case(rep: &mut Report, ws: &Workspace, case_seed: u64, r: &mut Rng, p
         let mut rp = replay_base.clone();
         rp["occurrence"] = json!({"path": if free { FREE.to_string() } else { module_path(mi) }, "range": [occ.range.0, occ.range.1], "text": occ.ident.text, "site": occ.ident.site, "cursor": at});
         let mut valid_ok: Option<bool> = None;
-        for (cname, name) in &classes {
+        // every candidate name - and the symbol's own current spelling (a rename "to itself": nothing to do for
+        // a local symbol, still not allowed for a foreign one)
+        let mut classes_here = classes.clone();
+        classes_here.push(("own-current-name", occ.ident.text.clone()));
+        for (cname, name) in &classes_here {
             rep.evaluations += 1;
             let out = panicmon::guard(|| an.rename(fpos, name));
             let res = match out {
